@@ -125,7 +125,7 @@ theorem shortcut_facts {kw : Kw} {a b c : List S} {n i : Option S} {p : List (St
     a = [] ∧ b = [] ∧ c = [] ∧ n = none ∧ i = none ∧ p = [] ∧ ad = none ∧ kw.bare = true ∧ kw.addHas ≠ some false := by
   unfold S.shortcut at h
   simp only [Bool.and_eq_true, Bool.not_eq_true'] at h
-  obtain ⟨he, hs⟩ := h
+  obtain ⟨hs, he⟩ := h
   simp only [S.hasSub, Bool.or_eq_false_iff, Option.isSome_eq_false_iff, Option.isNone_iff_eq_none,
     Bool.not_eq_false', isEmpty_list_iff] at hs
   obtain ⟨⟨⟨⟨⟨⟨hn, hi⟩, had⟩, hp⟩, hc⟩, hb⟩, ha⟩ := hs
